@@ -141,6 +141,10 @@ async def _drive(case):
             await rsend.send(res)
         elif e["t"] == "sleep":
             await asyncio.sleep(e["dt"] / 8.0)
+        elif e["t"] == "restart":
+            # stop() followed by start() of the manager itself; everything around it keeps running
+            await actor.stop()
+            actor.start()
         await collect(i, g)
     for t in pumps:
         t.cancel()
@@ -201,6 +205,10 @@ def model_events(case, log):
         e = case["events"][x["e"]]
         if e["t"] == "sleep":
             continue
+        if e["t"] == "restart":
+            evs.append("NRestart")
+            exp.append("None")
+            continue
         g = e["g"]
         if e["t"] == "prop":
             pe = (f"(PProp {'true' if e['op'] else 'false'} (mkP {cZ(e['prio'])} {cZ(rank[e['src']])} {copt(e['pref'])} "
@@ -237,8 +245,10 @@ def gen_case(rng, maxlen=16):
         elif r < 0.7:
             evs.append({"t": "bounds", "g": g, "sys": M.gen_sys(rng, allow_none=rng.random() < 0.2),
                         "ts": rng.choice([-100, -1, 0, 0, 1, 100])})
-        elif r < 0.88:
+        elif r < 0.86:
             evs.append({"t": "result", "g": g, "k": rng.choice([0, 1, 1, 1, 2]), "back": rng.choice([0, 0, 1])})
+        elif r < 0.9:
+            evs.append({"t": "restart"})
         else:
             evs.append({"t": "sleep", "dt": rng.choice([1, 8, 80, 240, 400, 479, 481, 500])})
     q = rng.choice([-2, 0, 1, 2, 3, 7])
@@ -250,6 +260,9 @@ def boundary_cases():
     B = lambda g, l, u: {"t": "bounds", "g": g, "sys": {"incl": [l, u], "excl": [0, 0]}}
     R = lambda g, k: {"t": "result", "g": g, "k": k}
     return [
+        # the manager is stopped and started again; afterwards the bounds of a known group shrink
+        {"events": [B(0, -100, 100), P(0, False, "a", 1, 80), P(0, True, "a", 1, 15), {"t": "restart"}, B(0, -60, 60),
+                    P(0, False, "a", 1, 80), {"t": "restart"}, R(0, 1), R(0, 1)], "q_reg": 1, "q_op": 2},
         # the partial-failure flag is shared: group 1's failure right after group 0's is not retried
         {"events": [B(0, -100, 100), B(1, -50, 50), P(0, True, "a", 1, 70), P(1, False, "a", 1, 80), P(0, False, "a", 1, 20),
                     R(0, 1), R(1, 1), R(1, 0), R(1, 1)], "q_reg": 1, "q_op": 2},
@@ -315,6 +328,8 @@ class GroupsStream(Stream):
                 by_actor.setdefault((e["prio"], e["src"], e["op"]), set()).add(e["g"])
         if any(len(v) > 1 for v in by_actor.values()):
             out.append("actor_in_several_groups")
+        if any(e["t"] == "restart" for e in case["events"]):
+            out.append("manager_stopped_and_started")
         pf = [e["g"] for e in case["events"] if e["t"] == "result" and e["k"] == 1]
         if len(set(pf)) > 1:
             out.append("partial_failures_in_several_groups")
@@ -343,9 +358,9 @@ class GroupsStream(Stream):
                 continue
             e = case["events"][x["e"]]
             g = e.get("g")
-            if e["t"] == "sleep":
+            if e["t"] in ("sleep", "restart"):
                 if x.get("requests"):
-                    out.append({"what": f"a request {x['requests']} was sent while nothing happened (event {x['e']}: sleep)", "finding": None})
+                    out.append({"what": f"a request {x['requests']} was sent while nothing happened (event {x['e']}: {e['t']})", "finding": None})
                 continue
             if e["t"] == "bounds":
                 cur[g] = e["sys"]
@@ -363,6 +378,12 @@ class GroupsStream(Stream):
                 if not (l <= last[g] <= u):
                     out.append({"what": f"stale: after the bounds update of event {x['e']} for group {g} to [{l}, {u}] the group's last request is still {last[g]}",
                                 "finding": None})
+            rep0 = x.get("report")
+            if rep0 is not None and (rep0["reg_target"] is not None or rep0["op_target"] is not None):
+                s0 = (rep0["reg_target"] or 0) + (rep0["op_target"] or 0)
+                if last[g] != s0:
+                    out.append({"what": f"in-force: after event {x['e']} the actors of group {g} are told targets {rep0['reg_target']} + "
+                                        f"{rep0['op_target']} but the group's last request is {last[g]}", "finding": None})
             if r is None:
                 continue
             rep = x.get("report")
